@@ -61,9 +61,11 @@ type c16H struct {
 }
 
 type c16Scenario struct {
-	CustomRecover bool              `json:"custom_recover"`
-	Handlers      map[string][]c16H `json:"handlers"` // verb -> handlers
-	Events        []string          `json:"events"`   // verb, or "!<builtin probe line>"
+	CloseWhileBlocked bool              `json:"close_while_blocked"` // end the connection while background handlers are still blocked
+	PanicDuringClose  bool              `json:"panic_during_close"`  // a handler panics while Close() is waiting for the event loop
+	CustomRecover     bool              `json:"custom_recover"`
+	Handlers          map[string][]c16H `json:"handlers"` // verb -> handlers
+	Events            []string          `json:"events"`   // verb, or "!<builtin probe line>"
 }
 
 var c16Verbs = []string{"EVX", "EVY", "PRIVMSG"}
@@ -71,7 +73,8 @@ var c16Probes = []string{"PING", "433", "CAP", "410 a", ":me!ident@host NICK", "
 var c16ProbePanics = map[string]bool{"PING": true, "433": true, "CAP": true, "410 a": true, ":me!ident@host NICK": true, "908 a": true, "CAP * LS": false}
 
 func genC16(t *rapid.T) *c16Scenario {
-	sc := &c16Scenario{CustomRecover: rapid.Bool().Draw(t, "custom_recover"), Handlers: map[string][]c16H{}}
+	sc := &c16Scenario{CustomRecover: rapid.Bool().Draw(t, "custom_recover"), Handlers: map[string][]c16H{},
+		CloseWhileBlocked: rapid.Bool().Draw(t, "close_while_blocked"), PanicDuringClose: rapid.IntRange(0, 3).Draw(t, "panic_during_close") == 0}
 	for _, v := range c16Verbs {
 		nfg := rapid.IntRange(1, 4).Draw(t, "nfg")
 		nbg := rapid.IntRange(0, 3).Draw(t, "nbg")
@@ -148,7 +151,7 @@ func runC16(sc *c16Scenario) *Violation {
 		tc.shutdown()
 	}()
 	inv := map[string]int{} // "verb#i" -> invocations
-	var order []int        // seqs seen by the order witness
+	var order []int         // seqs seen by the order witness
 	for verb, hs := range sc.Handlers {
 		for i, h := range hs {
 			key, h := fmt.Sprintf("%s#%d", verb, i), h
@@ -183,10 +186,29 @@ func runC16(sc *c16Scenario) *Violation {
 			mu.Unlock()
 		})
 	}
+	// well-behaved user handlers on the built-in verbs too: a panicking internal handler must not
+	// keep the event from them
+	probeInv := map[string]int{}
+	for _, pv := range []string{"PING", "433", "CAP", "410", "NICK", "908"} {
+		pv := pv
+		tc.C.HandleFunc(pv, func(c *client.Conn, l *client.Line) {
+			mu.Lock()
+			probeInv["fg:"+pv]++
+			mu.Unlock()
+		})
+		tc.C.HandleBG(pv, client.HandlerFunc(func(c *client.Conn, l *client.Line) {
+			mu.Lock()
+			probeInv["bg:"+pv]++
+			mu.Unlock()
+		}))
+	}
+	discCh := make(chan struct{}, 2)
+	tc.C.HandleFunc(client.DISCONNECTED, func(*client.Conn, *client.Line) { discCh <- struct{}{} })
 	if err := tc.connect(); err != nil {
 		return violationf("C16", "connect: %v", err)
 	}
 	// expectations
+	wantProbe := map[string]int{}
 	wantInv := map[string]int{}
 	wantPanics := map[string]int{} // raw -> count
 	totalPanics := 0
@@ -198,6 +220,10 @@ func runC16(sc *c16Scenario) *Violation {
 		if strings.HasPrefix(ev, "!") {
 			raw := ev[1:]
 			lines = append(lines, raw)
+			if pl, _ := parseNoPanic(raw); pl != nil {
+				wantProbe["fg:"+pl.Cmd]++
+				wantProbe["bg:"+pl.Cmd]++
+			}
 			if c16ProbePanics[raw] {
 				wantPanics[raw]++
 				totalPanics++
@@ -241,6 +267,11 @@ func runC16(sc *c16Scenario) *Violation {
 				return false
 			}
 		}
+		for k, w := range wantProbe {
+			if probeInv[k] < w {
+				return false
+			}
+		}
 		if sc.CustomRecover && len(recovered) < totalPanics {
 			return false
 		}
@@ -249,10 +280,44 @@ func runC16(sc *c16Scenario) *Violation {
 	if !ok {
 		mu.Lock()
 		defer mu.Unlock()
-		return fail(fmt.Sprintf("handlers not invoked for every matching event: got %v want %v; recovered %d of %d panics", inv, wantInv, len(recovered), totalPanics))
+		return fail(fmt.Sprintf("handlers not invoked for every matching event: got %v want %v; on built-in verbs got %v want %v; recovered %d of %d panics", inv, wantInv, probeInv, wantProbe, len(recovered), totalPanics))
+	}
+	if sc.CloseWhileBlocked {
+		// DISCONNECTED is a later event too: it must reach foreground handlers although background
+		// handlers are still blocked
+		go tc.C.Close()
+		select {
+		case <-discCh:
+		case <-time.After(stallTimeout()):
+			return fail(fmt.Sprintf("DISCONNECTED not delivered while background handlers are blocked (blocked handlers present: %v)", blockedSoFar))
+		}
 	}
 	close(release)
 	released = true
+	if sc.PanicDuringClose && !sc.CloseWhileBlocked {
+		// a handler that panics while Close() is waiting for the event loop: recovery must still work
+		// and the disconnect must still complete
+		entered := make(chan struct{})
+		tc.C.HandleFunc("PANICLATE", func(c *client.Conn, l *client.Line) {
+			close(entered)
+			waitCond(5*time.Second, func() bool { return !c.Connected() })
+			panic("panic during close")
+		})
+		tc.conn().SendLine(":s!u@h PANICLATE x :late")
+		select {
+		case <-entered:
+		case <-time.After(stallTimeout()):
+			return fail("late event not delivered")
+		}
+		go tc.C.Close()
+		select {
+		case <-discCh:
+		case <-time.After(stallTimeout()):
+			return fail("a handler panicked while Close() was in progress: DISCONNECTED never delivered (recovery blocked?)")
+		}
+		wantPanics[":s!u@h PANICLATE x :late"]++
+		totalPanics++
+	}
 	if !waitCond(stallTimeout(), func() bool { return dispatchFrames() == 0 }) {
 		return fail("handler dispatch did not finish after releasing blocked handlers")
 	}
@@ -261,6 +326,11 @@ func runC16(sc *c16Scenario) *Violation {
 	for k, w := range wantInv {
 		if inv[k] != w {
 			return violationf("C16", "handler %s ran %d times, want %d (a sibling's panic must not disturb it)", k, inv[k], w)
+		}
+	}
+	for k, w := range wantProbe {
+		if probeInv[k] != w {
+			return violationf("C16", "user handler %s ran %d times, want %d (a panicking built-in handler must not keep the event from it)", k, probeInv[k], w)
 		}
 	}
 	if fmt.Sprint(order) != fmt.Sprint(wantOrder) {
@@ -289,12 +359,12 @@ func runC16(sc *c16Scenario) *Violation {
 	} else {
 		n := 0
 		for _, r := range c16Log.take() {
-			if r.Level == "error" && strings.Contains(r.Text, "panic:") {
+			if r.Level == "error" {
 				n++
 			}
 		}
-		if n != totalPanics {
-			return violationf("C16", "default recovery logged %d panics, want %d", n, totalPanics)
+		if n < totalPanics {
+			return violationf("C16", "default recovery logged %d error records for %d panics", n, totalPanics)
 		}
 	}
 	return nil
